@@ -36,16 +36,16 @@ RULES = {
 TABLE = {
     "peak_frequencies": ["self._main_peak_frq[self.valid_peak_boolean_mask]"],
     "peak_amplitudes": ["self._main_peak_amp[self.valid_peak_boolean_mask]"],
-    "mean_fn_frequency": ["_nanmean_weighted(distribution, self.peak_frequencies)"],
-    "mean_fn_amplitude": ["_nanmean_weighted(distribution, self.peak_amplitudes)"],
-    "std_fn_frequency": ["_nanstd_weighted(distribution, self.peak_frequencies)"],
-    "std_fn_amplitude": ["_nanstd_weighted(distribution, self.peak_amplitudes)"],
+    "mean_fn_frequency": ["_nanmean_weighted(distribution=distribution, values=self.peak_frequencies)"],
+    "mean_fn_amplitude": ["_nanmean_weighted(distribution=distribution, values=self.peak_amplitudes)"],
+    "std_fn_frequency": ["_nanstd_weighted(distribution=distribution, values=self.peak_frequencies)"],
+    "std_fn_amplitude": ["_nanstd_weighted(distribution=distribution, values=self.peak_amplitudes)"],
     "mean_curve": ["self.amplitude[self.valid_window_boolean_mask].flatten()",
-                   "_nanmean_weighted(distribution, self.amplitude[self.valid_window_boolean_mask], mean_kwargs=dict(axis=0))"],
-    "std_curve": ["_nanstd_weighted(distribution, self.amplitude[self.valid_window_boolean_mask], std_kwargs=dict(axis=0))"],
-    "nth_std_fn_frequency": ["_nth_std_factory(n, distribution, self.mean_fn_frequency(distribution), self.std_fn_frequency(distribution))"],
-    "nth_std_fn_amplitude": ["_nth_std_factory(n, distribution, self.mean_fn_amplitude(distribution), self.std_fn_amplitude(distribution))"],
-    "nth_std_curve": ["_nth_std_factory(n, distribution, self.mean_curve(distribution), self.std_curve(distribution))"],
+                   "_nanmean_weighted(distribution=distribution, values=self.amplitude[self.valid_window_boolean_mask], mean_kwargs=dict(axis=0))"],
+    "std_curve": ["_nanstd_weighted(distribution=distribution, values=self.amplitude[self.valid_window_boolean_mask], std_kwargs=dict(axis=0))"],
+    "nth_std_fn_frequency": ["_nth_std_factory(n=n, distribution=distribution, mean=self.mean_fn_frequency(distribution), std=self.std_fn_frequency(distribution))"],
+    "nth_std_fn_amplitude": ["_nth_std_factory(n=n, distribution=distribution, mean=self.mean_fn_amplitude(distribution), std=self.std_fn_amplitude(distribution))"],
+    "nth_std_curve": ["_nth_std_factory(n=n, distribution=distribution, mean=self.mean_curve(distribution), std=self.std_curve(distribution))"],
 }
 
 
